@@ -89,11 +89,14 @@ TrRecHelper ==
                   \/ ("h:404" \in DOMAIN Ev.faults /\ Ev.path # "/x")
                   \/ ("h:405" \in DOMAIN Ev.faults /\ Ev.path = "/x" /\ Ev.method \notin {"GET", "HEAD", "OPTIONS"})
                   \/ ("h:opt" \in DOMAIN Ev.faults /\ Ev.path = "/x" /\ Ev.method = "OPTIONS")
+         late == "late:route" \in DOMAIN Ev.faults /\ Ev.method \in {"GET", "HEAD"} /\ Ev.path = "/x"
      IN /\ Check("C16", Ev.escaped = "none", <<"panic escaped a bundled recovery option", Ev.kind, Ev.method, Ev.path, Ev.faults, Ev.escaped>>)
         /\ Check("C16", fired => Ev.status = Ev.code, <<"recovery status", Ev.kind, Ev.code, Ev.status>>)
-        /\ Check("C16", (fired /\ Ev.kind # "status") => Ev.outlen > 0, <<"nothing written to the recovery output", Ev.kind>>)
-        /\ Check("C16", (~fired /\ Ev.kind # "status") => Ev.outlen = 0, <<"recovery output without a panic", Ev.kind>>)
-        /\ Check("C16", Ev.later.kind = "route" /\ Ev.later.status = 200 /\ Ev.later.escaped = "none", <<"request after a recovered panic", Ev.later>>)
+        \* a panic after the handler has sent its own status line: contained all the same, the status already sent stands
+        /\ Check("C16", (late /\ ~fired) => Ev.status = 204, <<"status after a late panic", Ev.kind, Ev.method, Ev.status>>)
+        /\ Check("C16", ((fired \/ late) /\ Ev.kind # "status") => Ev.outlen > 0, <<"nothing written to the recovery output", Ev.kind>>)
+        /\ Check("C16", (~fired /\ ~late /\ Ev.kind # "status") => Ev.outlen = 0, <<"recovery output without a panic", Ev.kind>>)
+        /\ Check("C16", Ev.later.kind = "route" /\ Ev.later.status = 204 /\ Ev.later.escaped = "none", <<"request after a recovered panic", Ev.later>>)
 Next == /\ l <= Len(Trace) /\ l' = l + 1
         /\ (TrReset \/ TrOp \/ TrServe \/ TrObserve \/ TrRecHelper)
         /\ (l' > Len(Trace) => PrintT("TRACE-END " \o ToString(Len(Trace))))
